@@ -58,6 +58,8 @@ def run(ctx):
     ctx.notes.append('generated constants: %r' % consts)
     if not ctx.coq():
         ctx.broken_proof()
+    elif ctx.thorough and not ctx.coqchk():
+        ctx.broken_proof('coqchk rejected the compiled development')
     model = vf.build_extracted('c20', 'C20', 'c20_driver.ml')
     guard = vf.build_cpp('c20_guard', [os.path.join(vf.VERIF, 'harness/cpp/c20_h.cc')] + SRC, sanitize=False)
     asan = vf.build_cpp('c20_asan', [os.path.join(vf.VERIF, 'harness/cpp/c20_h.cc')] + SRC,
